@@ -5,13 +5,16 @@ import (
 	"errors"
 	"fmt"
 	"math/rand"
+	"os"
 	"regexp"
 	"runtime"
 	"sort"
 	"strings"
 	"sync"
+	"sync/atomic"
 	"time"
 
+	"github.com/go-kit/log"
 	"github.com/prometheus/prometheus/promql"
 	"github.com/prometheus/prometheus/storage"
 
@@ -107,6 +110,10 @@ func runFault(sc *scn.Scenario, em func(vt.Ev), mode string, k int64, baseline *
 	// producers run ahead and hit the fault with their buffers full
 	lag := strings.HasSuffix(mode, "+lag")
 	mode = strings.TrimSuffix(mode, "+lag")
+	// "<mode>+busy": the engine has an active-query tracker with room for one query (EngineOpts.ActiveQueryTracker),
+	// and another query of the same engine is being executed (blocked in its storage) the whole time
+	busy := strings.HasSuffix(mode, "+busy")
+	mode = strings.TrimSuffix(mode, "+busy")
 	gate := strings.TrimPrefix(strings.TrimPrefix(strings.TrimPrefix(mode, "gate:"), "gateq:"), "gatec:")
 	isGate := strings.HasPrefix(mode, "gate:") || strings.HasPrefix(mode, "gateq:") || strings.HasPrefix(mode, "gatec:")
 	viaQuery := strings.HasPrefix(mode, "gateq:") // cancel through Query.Cancel() instead of the caller's context
@@ -156,8 +163,44 @@ func runFault(sc *scn.Scenario, em func(vt.Ev), mode string, k int64, baseline *
 	} else {
 		main = mk(series, 0)
 		all = append(all, main)
-		eng = engine.New(run.EngineOpts(sc, "default", true, nil))
+		o := run.EngineOpts(sc, "default", true, nil)
+		if busy {
+			if dir, derr := os.MkdirTemp("", "vreplay-aqt"); derr == nil {
+				defer os.RemoveAll(dir)
+				o.EngineOpts.ActiveQueryTracker = promql.NewActiveQueryTracker(dir, 1, log.NewNopLogger())
+			}
+		}
+		eng = engine.New(o)
 	}
+	// the other query of a busy engine: its first storage callback blocks until it is released
+	releaseHolder := func() {}
+	if busy && !dist {
+		hst := vstore.New(series)
+		hst.HonourCtx = true
+		hctx, hcancel := context.WithCancel(context.Background())
+		hst.Inj = &vstore.Inject{K: 1, Kind: "block", Cancel: hcancel}
+		if hq, herr := run.Create(eng, hst, sc); herr == nil {
+			hdone := make(chan struct{})
+			go func() { hq.Exec(hctx); close(hdone) }()
+			for i := 0; i < 200 && atomic.LoadInt32(&hst.Inj.Fired) == 0; i++ {
+				time.Sleep(time.Millisecond)
+			}
+			var once sync.Once
+			releaseHolder = func() {
+				once.Do(func() {
+					hcancel()
+					select {
+					case <-hdone:
+					case <-time.After(5 * time.Second):
+					}
+					hq.Close()
+				})
+			}
+		} else {
+			hcancel()
+		}
+	}
+	defer releaseHolder()
 	snaps := make([]vstore.Snapshot, len(all))
 	for i, st := range all {
 		snaps[i] = st.Snapshot()
@@ -310,6 +353,7 @@ func runFault(sc *scn.Scenario, em func(vt.Ev), mode string, k int64, baseline *
 	// the engine that has just seen the fault serves the same query again, fault-free: other queries
 	// are unaffected by a query that failed, panicked or was cancelled (not in the distributed
 	// set-up, whose remote engines hold the faulted storage)
+	releaseHolder()
 	if mode != "none" && !dist && !timedout && baseline != nil && alive == 0 {
 		again := run.Exec(context.Background(), eng, vstore.New(series), sc, false)
 		sink.Emit(vt.Ev{"ev": "after", "equal": wholeResult(again.C).equal(baseline.obs), "desc": wholeResult(again.C).diff(baseline.obs)})
@@ -323,6 +367,9 @@ func runFault(sc *scn.Scenario, em func(vt.Ev), mode string, k int64, baseline *
 	}
 	if mode == "errwrap" {
 		rmode = "err"
+	}
+	if mode == "cancelpanic" {
+		rmode = "panic" // a panic (after a cancellation): the run ends with an error, the process lives
 	}
 	em(vt.Ev{"ev": "run", "mode": rmode, "k": k})
 	evs := sink.Drain()
@@ -478,7 +525,18 @@ func famFault(sc *scn.Scenario, em func(vt.Ev)) {
 			}
 			continue
 		}
-		for _, k := range pickKs(r, base.n, base.kinds, strings.TrimSuffix(mode, "+lag"), maxK) {
+		if mode == "cancelcall+busy" {
+			span := 2*base.dur.Microseconds() + 50
+			for i := 0; i < 6; i++ {
+				runFault(sc, em, mode, r.Int63n(span), base)
+			}
+			continue
+		}
+		ks := pickKs(r, base.n, base.kinds, strings.TrimSuffix(strings.TrimSuffix(mode, "+lag"), "+busy"), maxK)
+		if strings.HasSuffix(mode, "+busy") && len(ks) > 6 {
+			ks = ks[:6]
+		}
+		for _, k := range ks {
 			runFault(sc, em, mode, k, base)
 		}
 	}
